@@ -11,7 +11,7 @@ SPEC_KEYS = {"flow_rates", "comp_rates"}
 def run(tier, seed):
     n = tier_n(tier, 260, 4000)
     g = gen.Gen(seed * 7919 + 1)
-    progs = [g.program({"signed": 0.2, "self_flow": 0.1, "post_birth": 0.3, "post_import": 0.3, "bare_adjs": 0.3}) for _ in range(n)]
+    progs = [g.program({"signed": 0.2, "self_flow": 0.1, "post_birth": 0.3, "post_import": 0.3, "bare_adjs": 0.3, "cross_strain": 0.5}) for _ in range(n)]
     out = []
     for p, st in with_struct(progs):
         if st is None:
